@@ -4,7 +4,7 @@
    by something that cannot extend it, is returned with exactly its type and text. *)
 From Verif Require Import Common.Base Common.Tactics Common.Lx Gen.Tables
   JsLex.Model JsLex.Lemmas JsLex.Total JsLex.Next JsLex.Canon JsLex.Comment JsLex.Relex JsLex.Proofs
-  JsLex.RelexNext JsLex.Exchange JsLex.Exchange2 JsLex.Exchange3 JsLex.NumExchange JsLex.Regexp JsLex.SeqRegex.
+  JsLex.RelexNext JsLex.Exchange JsLex.Exchange2 JsLex.Exchange3 JsLex.NumExchange JsLex.Regexp JsLex.Stops JsLex.SeqRegex.
 From Coq Require Import ZifyBool.
 
 Inductive tclass := KPunct | KIdent | KWs | KLt | KString | KComment | KTemplate | KNum.
@@ -157,6 +157,14 @@ Proof.
     first [left; reflexivity | right; split; reflexivity].
 Qed.
 
+Lemma op_ty_punct l n ty : op l = Ok (n, ty) -> ty = ErrorToken \/ is_punct_ty ty = true.
+Proof.
+  intros H. unfold op in H. crunch H; injection H as _ <-;
+    unfold lookup_op, js_op_eq_tokens, js_op_op_eq_tokens, js_op_op_tokens, js_op_tokens;
+    repeat match goal with |- context [if ?c then _ else _] => destruct c end;
+    first [left; reflexivity | right; reflexivity].
+Qed.
+
 Lemma hd_cons_nonempty R' : R' <> [] -> exists c R'', R' = c :: R'' /\ hd 0 R' = c.
 Proof. destruct R' as [|c R'']; [congruence|]. eauto. Qed.
 
@@ -180,6 +188,21 @@ Qed.
 
 Section SeqNext.
 Variables (id_start id_cont is_zs : Z -> bool).
+
+(* the exact follower condition: what follows the token T of class cls (R' = the rest of the input, terminator
+   included) does not extend it; pl: T starts a line.  stop_for above is a sufficient form (stop_for_stops). *)
+Definition stops (cls : tclass) (pl : bool) (T : list Z) (R' : list Z) : Prop :=
+  match cls with
+  | KPunct => punct_stop pl T R'                  (* no longer punctuator, no comment opener, no ".5" *)
+  | KIdent => ident_stop id_cont R'               (* no identifier character / ID_Continue rune / '\' *)
+  | KWs => ws_stop is_zs R'                       (* no whitespace byte or rune *)
+  | KLt => lt_stop R'                             (* no line terminator *)
+  | KString | KTemplate => True                   (* closed tokens: any follower *)
+  | KComment => firstz 2 T = [47; 42] \/ lc_stop R'
+  | KNum => tab_cont (hd 0 R') = false /\          (* no digit, letter, '_', '$': they continue the literal or are the
+                                                     error "identifier directly after a number" *)
+            (hd 0 R' = 46 -> is_dec_int T = false) (* '.' continues plain decimal integers only *)
+  end.
 
 (* the identifier scanner and consumeWhitespace decline on a non-ASCII rune inside T, whatever follows T *)
 Lemma ident_decline2 T R R' a a0 r n : R <> [] -> R' <> [] -> no_trunc T = true -> T <> [] ->
@@ -221,14 +244,13 @@ Qed.
 Lemma next_extend s pn pl lev tl lev' tl' ty T R' cls :
   relexes id_start id_cont is_zs ty T -> class_of ty = Some cls -> text_ok cls pl T -> no_trunc T = true ->
   seq_inv pn pl lev tl s -> step_state ty lev tl = Some (lev', tl') ->
-  (pn = true -> cls <> KIdent) -> suffix (jcur s) = T ++ R' -> wfl R' -> stop_for cls T R' ->
+  (pn = true -> cls <> KIdent) -> suffix (jcur s) = T ++ R' -> wfl R' -> stops cls pl T R' ->
   exists s', next id_start id_cont is_zs s = Ok ((ty, Some T), s') /\
     seq_inv (is_num cls) (plt_after ty pl) lev' tl' s' /\ suffix (jcur s') = R'.
 Proof.
   intros (s2 & Hn & Hp & _) Hcls Htxt Hnt (Hw & Hst & Hlev & Htl & Hpnl & Hplt) Hstep Hpn Hsuf HwR' Hstop.
   assert (HR' : R' <> []) by (apply wfl_nonnil; assumption).
   destruct s as [z e0 plt0 pnl0 lev0 tl0]. unfold js_wf in Hw. cbn [jcur jtl jpnl jlevel jplt] in *. subst tl0 pnl0 lev0 pl.
-  cbv zeta in Hstop.
   assert (HT : 0 < len T).
   { destruct T; [|rewrite len_cons; pose proof (len_nonneg T); lia]. exfalso. vm_compute in Hn. discriminate. }
   assert (H0R : [0] <> []) by discriminate.
@@ -250,7 +272,7 @@ Proof.
                  repeat match type of Hcls with context [if ?b then _ else _] => destruct b eqn:? end; try lia; congruence);
            subst cls; destruct Hstop as (S1 & S2);
            destruct (hd_cons_nonempty R' HR') as (c & R'' & HRc & Hc); rewrite Hc in *; subst R';
-           pose proof (numeric_exchange c R'' S1 S2 T [0] _ _ _ Hnt H0R HT E0 eq_refl Hne) as E0';
+           pose proof (numeric_exchange c R'' S1 T [0] _ _ _ Hnt H0R HT E0 eq_refl Hne S2) as E0';
            open_ext E (c :: R'') Hsuf; rewrite E0'; cbn [rbind];
            replace (negb (t =? ErrorToken)) with true by (unfold ErrorToken in *; lia); cbn [orb]; cbv iota;
            unfold ErrorToken in Hnty, Hne;
@@ -259,7 +281,7 @@ Proof.
   (* HTML-like comments "<!--..." and, at the start of a line, "-->..." *)
   try (match goal with
        | E0 : html_comment true (T ++ [0]) = Ok ?n , Hty0 : ty = CommentToken |- _ =>
-           assert (n = len T) by lia; subst n ty; injection Hcls as <-; cbn [text_ok stop_for] in Htxt, Hstop;
+           assert (n = len T) by lia; subst n ty; injection Hcls as <-; cbn [text_ok stops] in Htxt, Hstop;
            destruct (head_of_pkl T [0] a HT E) as (T' & HTa);
            assert (Hlc : lc_stop R')
              by (destruct Hstop as [Hstop|Hstop]; [exfalso|exact Hstop];
@@ -280,7 +302,7 @@ Proof.
            pose proof (comment_sl _ _ _ _ _ E0 Hne) as Hsl;
            assert (cls = KComment)
              by (destruct Hcty as [->|[->| ->]]; [congruence|injection Hcls as <-; reflexivity|injection Hcls as <-; reflexivity]);
-           subst cls; cbn [text_ok stop_for] in Htxt, Hstop;
+           subst cls; cbn [text_ok stops] in Htxt, Hstop;
            destruct (head_of_pkl T [0] a HT E) as (T' & HTa);
            assert (E0' : comment (T ++ R') = Ok (len T, t, e, sl))
              by (destruct Htxt as [Htxt|[Htxt|[Htxt|(Htxt & _)]]];
@@ -318,12 +340,8 @@ Proof.
            cbn [rbind]; use_conds; cbn [jtl set_tl]; fin_ext z T R' Hw Hst Hsuf HR' Hstep
        end).
   - (* ASCII whitespace *)
-    subst ty. injection Hcls as <-. destruct Hstop as (S1 & S2 & S3 & S4 & S5).
-    destruct (hd_cons_nonempty R' HR') as (c & R'' & HRc & Hc). rewrite Hc in *.
-    assert (Hstop0 : ws1 is_zs R' = Ok 0).
-    { rewrite HRc. unfold ws1. rewrite pkl_cons_0. cbn [rbind].
-      replace ((c =? 32) || (c =? 9) || (c =? 11) || (c =? 12)) with false by lia.
-      replace (192 <=? c) with false by lia. reflexivity. }
+    subst ty. injection Hcls as <-.
+    assert (Hstop0 : ws1 is_zs R' = Ok 0) by (apply ws_stop_ok; assumption).
     assert (Hm : a0 = len T - 1) by lia. rewrite Hm in E0.
     unfold repl in E0. rewrite skipz_app_le in E0 by lia.
     replace (len T - 1) with (len (skipz 1 T)) in E0 by (rewrite len_skipz by lia; lia).
@@ -333,14 +351,10 @@ Proof.
     open_ext E R' Hsuf. unfold repl. rewrite skipz_app_le by lia. rewrite E0'. cbn [rbind].
     rewrite len_skipz by lia. fin_ext z T R' Hw Hst Hsuf HR' Hstep.
   - (* LF / CR *)
-    subst ty. injection Hcls as <-. destruct Hstop as (S1 & S2 & S3).
-    destruct (hd_cons_nonempty R' HR') as (c & R'' & HRc & Hc). rewrite Hc in *.
-    assert (Hstop0 : lt1 R' = Ok 0).
-    { rewrite HRc. unfold lt1. rewrite pkl_cons_0. cbn [rbind].
-      replace (c =? 10) with false by lia. replace (c =? 13) with false by lia. replace (c =? 226) with false by lia.
-      reflexivity. }
+    subst ty. injection Hcls as <-.
+    destruct (lt_stop_ok R' HwR' Hstop) as (Hstop0 & Hh10).
     assert (Hm : a0 = len T - 1) by lia. rewrite Hm in E0.
-    pose proof (repl_exchange_all lt1 R' T 1 (lt1_local2 R' HR' ltac:(rewrite Hc; lia)) Hstop0 lt1_nonneg' HR' Hnt ltac:(lia) E0) as E0'.
+    pose proof (repl_exchange_all lt1 R' T 1 (lt1_local2 R' HR' Hh10) Hstop0 lt1_nonneg' HR' Hnt ltac:(lia) E0) as E0'.
     open_ext E R' Hsuf. rewrite E0'. cbn [rbind]. fin_ext z T R' Hw Hst Hsuf HR' Hstep.
   - (* operators *)
     assert (z0 = len T) by lia. subst z0 ty.
@@ -348,12 +362,14 @@ Proof.
     assert (cls = KPunct).
     { unfold class_of, WhitespaceToken, LineTerminatorToken, PrivateIdentifierToken, StringToken, CommentToken, CommentLineTerminatorToken, TemplateToken, TemplateStartToken in Hcls.
       repeat match type of Hcls with context [if ?b then _ else _] => destruct b eqn:? end; try lia; congruence. }
-    subst cls. apply (stop_punct_op T [0] a _ E ltac:(unfold punct1, is_op_start in *; lia)) in Hstop.
-    destruct (hd_cons_nonempty R' HR') as (c & R'' & HRc & Hc). rewrite Hc in *. subst R'.
-    pose proof (op_exchange T [0] c R'' z1 H0R E0 Hstop) as E0'.
-    open_ext E (c :: R'') Hsuf. unfold op_or_err. rewrite Hsuf, E0'. cbn [rbind]. use_conds. fin_ext z T (c :: R'') Hw Hst Hsuf HR' Hstep.
+    subst cls. destruct Hstop as (P1 & P2 & P3 & P4 & P5).
+    assert (Hne : z1 <> ErrorToken) by (unfold ErrorToken; lia).
+    pose proof (op_canonical_op _ _ _ E0 Hne) as Hb. rewrite firstz_len_app in Hb.
+    assert (Hpt : is_punct_ty z1 = true) by (destruct (op_ty_punct _ _ _ E0) as [Hx|Hx]; [congruence|exact Hx]).
+    pose proof (op_exchange_exact T z1 R' HwR' Hb Hpt E0 P1 (fun e => P2 (or_introl e))) as E0'.
+    open_ext E R' Hsuf. unfold op_or_err. rewrite Hsuf, E0'. cbn [rbind]. use_conds. fin_ext z T R' Hw Hst Hsuf HR' Hstep.
   - (* "..." *)
-    subst ty. injection Hcls as <-. apply (stop_punct_op T [0] a _ E ltac:(unfold punct1; lia)) in Hstop.
+    subst ty. injection Hcls as <-.
     assert (z1 = 0) by (unfold mark, mv, lx_init in Eb3; cbn [lpos lstart] in Eb3; lia). subst z1.
     rewrite mv_0 in E1, E2. rewrite suffix_mv in E1, E2 by (cbn; lia). rewrite suffix_init in E1, E2.
     rewrite !pkl_skipz in E1, E2 by lia. change (1 + 0) with 1 in E1. change (1 + 1) with 2 in E2.
@@ -363,8 +379,7 @@ Proof.
     assert (c2 = 46) by (assert ((c2 =? 46) = true) by congruence; lia). subst c2.
     assert (a = 46) by lia. subst a.
     pose proof (three_bytes T [0] 46 46 46 ltac:(lia) E E1 E3). subst T.
-    destruct (hd_cons_nonempty R' HR') as (c & R'' & HRc & Hc). rewrite Hc in *. subst R'.
-    unfold op_stop in Hstop.
+    destruct (hd_cons_nonempty R' HR') as (c & R'' & HRc & Hc). subst R'.
     unfold next. cbv zeta. cbn [jcur jerr jplt jpnl jlevel jtl]. rewrite Hsuf. cbn [app]. rewrite pkl_cons_0. cbn [rbind].
     change ((46 =? 32) || (46 =? 9) || (46 =? 11) || (46 =? 12)) with false. cbv iota.
     change ((46 =? 10) || (46 =? 13)) with false. cbv iota. change (is_op_start 46) with false. cbv iota.
@@ -379,12 +394,14 @@ Proof.
     rewrite pkl_cons_0, pkl_1. cbn [rbind]. change (46 =? 46) with true. cbv iota. cbn [rbind].
     rewrite mv_mv. change (1 + 2) with (len [46; 46; 46]). fin_ext z [46; 46; 46] (c :: R'') Hw Hst Hsuf HR' Hstep.
   - (* "." *)
-    subst ty. injection Hcls as <-. apply (stop_punct_op T [0] a _ E ltac:(unfold punct1; lia)) in Hstop.
+    subst ty. injection Hcls as <-.
     assert (z1 = 0) by (unfold mark, mv, lx_init in Eb3; cbn [lpos lstart] in Eb3; lia). subst z1.
     assert (a = 46) by lia. subst a.
     pose proof (single_byte T [0] 46 ltac:(lia) E). subst T.
+    destruct Hstop as (P1 & P2 & _). specialize (P2 (or_intror eq_refl)).
+    destruct P1 as [P1|(P1 & _)]; [|discriminate P1].
     destruct (hd_cons_nonempty R' HR') as (c & R'' & HRc & Hc). rewrite Hc in *. subst R'.
-    unfold op_stop in Hstop.
+    exts_compute P1.
     unfold next. cbv zeta. cbn [jcur jerr jplt jpnl jlevel jtl]. rewrite Hsuf. cbn [app]. rewrite pkl_cons_0. cbn [rbind].
     change ((46 =? 32) || (46 =? 9) || (46 =? 11) || (46 =? 12)) with false. cbv iota.
     change ((46 =? 10) || (46 =? 13)) with false. cbv iota. change (is_op_start 46) with false. cbv iota.
@@ -396,8 +413,13 @@ Proof.
     change (negb (ErrorToken =? ErrorToken)) with false. cbn [orb].
     rewrite mv_0. replace (mark z =? 0) with true by (unfold mark; lia). cbn [negb]. cbv iota.
     rewrite suffix_mv by (destruct Hw as (_ & ? & _); lia). rewrite Hsuf. cbn [app]. rewrite skipz_1_cons.
-    rewrite pkl_cons_0. cbn [rbind]. replace (c =? 46) with false by lia. cbv iota. cbn [rbind].
-    change 1 with (len [46]) at 1. fin_ext z [46] (c :: R'') Hw Hst Hsuf HR' Hstep.
+    rewrite pkl_cons_0. cbn [rbind].
+    destruct (c =? 46) eqn:Ec46.
+    + assert (c = 46) by lia. subst c. destruct (wfl_cons_nz 46 R'' HwR' ltac:(lia)) as (_ & HR''ne).
+      destruct R'' as [|c2 R3]; [congruence|]. rewrite pkl_1. cbn [rbind].
+      replace (c2 =? 46) with false by lia. cbv iota. cbn [rbind].
+      change 1 with (len [46]) at 1. fin_ext z [46] (46 :: c2 :: R3) Hw Hst Hsuf HR' Hstep.
+    + cbn [rbind]. change 1 with (len [46]) at 1. fin_ext z [46] (c :: R'') Hw Hst Hsuf HR' Hstep.
   - (* PUNCT *)
     subst ty. injection Hcls as <-.
     pose proof (single_byte T [0] a ltac:(lia) E) as HT1. subst T.
@@ -423,17 +445,19 @@ Proof.
     assert (cls = KPunct).
     { unfold class_of, WhitespaceToken, LineTerminatorToken, PrivateIdentifierToken, StringToken, CommentToken, CommentLineTerminatorToken, TemplateToken, TemplateStartToken in Hcls.
       repeat match type of Hcls with context [if ?b then _ else _] => destruct b eqn:? end; try lia; congruence. }
-    subst cls. pose proof Hstop as Hstop0.
-    apply (stop_punct_op T [0] a _ E ltac:(unfold punct1, is_op_start in *; lia)) in Hstop.
+    subst cls. destruct Hstop as (P1 & P2 & P3 & P4 & P5).
+    assert (Hne4 : z4 <> ErrorToken) by (unfold ErrorToken; lia).
+    pose proof (op_canonical_op _ _ _ E1 Hne4) as Hb. rewrite firstz_len_app in Hb.
+    assert (Hpt : is_punct_ty z4 = true) by (destruct (op_ty_punct _ _ _ E1) as [Hx|Hx]; [congruence|exact Hx]).
+    pose proof (op_exchange_exact T z4 R' HwR' Hb Hpt E1 P1 (fun e => P2 (or_introl e))) as E1'.
     destruct (hd_cons_nonempty R' HR') as (c & R'' & HRc & Hc). rewrite Hc in *. subst R'.
-    pose proof (op_exchange T [0] c R'' z4 H0R E1 Hstop) as E1'.
     (* the comment scanner declines in front of c as well *)
     assert (E0' : comment (T ++ c :: R'') = Ok (0, ErrorToken, ENone, false)).
-    { unfold comment. unfold op_stop in Hstop.
+    { unfold comment.
       destruct T as [|t0 [|t1 T]]; [change (len (@nil Z)) with 0 in HT; lia| |]; cbn [app] in *.
-      - assert (Hc47 : c <> 47).
+      - assert (Hc47 : c <> 47 /\ c <> 42).
         { rewrite pkl_cons_0 in E. assert (Ht0 : t0 = 47) by (assert (t0 = a) by congruence; lia).
-          rewrite Ht0 in Hstop0. apply stop_punct_slash in Hstop0. exact Hstop0. }
+          apply P3. rewrite Ht0. reflexivity. }
         rewrite pkl_1. cbn [rbind]. replace (c =? 47) with false by lia. replace (c =? 42) with false by lia. reflexivity.
       - rewrite pkl_1 in Ec1 |- *. cbn [rbind]. assert (t1 = c1) by congruence. subst t1. rewrite E47, E42. reflexivity. }
     open_ext E (c :: R'') Hsuf. rewrite E0'. cbn [rbind]. cbn [negb Z.eqb ErrorToken ENone orb]. cbv iota.
@@ -472,18 +496,20 @@ Proof.
     assert (cls = KPunct).
     { unfold class_of, WhitespaceToken, LineTerminatorToken, PrivateIdentifierToken, StringToken, CommentToken, CommentLineTerminatorToken, TemplateToken, TemplateStartToken in Hcls.
       repeat match type of Hcls with context [if ?b then _ else _] => destruct b eqn:? end; try lia; congruence. }
-    subst cls. apply (stop_punct_op T [0] a _ E ltac:(unfold punct1, is_op_start in *; lia)) in Hstop.
-    destruct (hd_cons_nonempty R' HR') as (c & R'' & HRc & Hc). rewrite Hc in *. subst R'.
-    pose proof (op_exchange T [0] c R'' z1 H0R E1 Hstop) as E1'.
-    pose proof (html_decline2 plt0 T c R'' z1 E1 Hstop) as E0'.
-    open_ext E (c :: R'') Hsuf. rewrite E0'. cbn [rbind]. change (0 <? 0) with false. cbv iota.
-    unfold op_or_err. rewrite Hsuf, E1'. cbn [rbind]. use_conds. fin_ext z T (c :: R'') Hw Hst Hsuf HR' Hstep.
+    subst cls. destruct Hstop as (P1 & P2 & P3 & P4 & P5).
+    assert (Hne1 : z1 <> ErrorToken) by (unfold ErrorToken; lia).
+    pose proof (op_canonical_op _ _ _ E1 Hne1) as Hb. rewrite firstz_len_app in Hb.
+    assert (Hpt : is_punct_ty z1 = true) by (destruct (op_ty_punct _ _ _ E1) as [Hx|Hx]; [congruence|exact Hx]).
+    pose proof (op_exchange_exact T z1 R' HwR' Hb Hpt E1 P1 (fun e => P2 (or_introl e))) as E1'.
+    assert (P1' : longer_punct T R' = false).
+    { destruct P1 as [P1|(P1 & _)]; [exact P1|]. exfalso. rewrite P1 in E. cbn [app] in E. rewrite pkl_cons_0 in E.
+      assert (a = 63) by congruence. lia. }
+    pose proof (html_decline_exact plt0 T z1 R' HwR' Hb Hpt E1 P1' P4 P5) as E0'.
+    open_ext E R' Hsuf. rewrite E0'. cbn [rbind]. change (0 <? 0) with false. cbv iota.
+    unfold op_or_err. rewrite Hsuf, E1'. cbn [rbind]. use_conds. fin_ext z T R' Hw Hst Hsuf HR' Hstep.
   - (* private identifiers *)
-    subst ty. injection Hcls as <-. destruct Hstop as (S1 & S2 & S3).
-    destruct (hd_cons_nonempty R' HR') as (c & R'' & HRc & Hc). rewrite Hc in *.
-    assert (Hstop0 : ident_cont1 id_cont R' = Ok 0).
-    { rewrite HRc. unfold ident_cont1, uesc. rewrite pkl_cons_0. cbn [rbind]. rewrite S1.
-      replace (192 <=? c) with false by lia. replace (negb (c =? 92)) with true by lia. reflexivity. }
+    subst ty. injection Hcls as <-.
+    assert (Hstop0 : ident_cont1 id_cont R' = Ok 0) by (apply ident_stop_ok; assumption).
     rewrite skipz_app_le in E0 by lia.
     assert (Ha0 : a0 = len (skipz 1 T)) by (rewrite len_skipz by lia; lia). rewrite Ha0 in E0.
     pose proof (ident_exchange id_start id_cont R' HR' _ _ (no_trunc_skipz' 1 T Hnt ltac:(lia)) H0R E0 ltac:(lia) Hstop0) as E0'.
@@ -498,11 +524,8 @@ Proof.
     assert (cls = KIdent).
     { unfold class_of, WhitespaceToken, LineTerminatorToken, PrivateIdentifierToken, StringToken, CommentToken, CommentLineTerminatorToken, TemplateToken, TemplateStartToken in Hcls.
       repeat match type of Hcls with context [if ?b then _ else _] => destruct b eqn:? end; try lia; congruence. }
-    subst cls. destruct Hstop as (S1 & S2 & S3).
-    destruct (hd_cons_nonempty R' HR') as (c & R'' & HRc & Hc). rewrite Hc in *.
-    assert (Hstop0 : ident_cont1 id_cont R' = Ok 0).
-    { rewrite HRc. unfold ident_cont1, uesc. rewrite pkl_cons_0. cbn [rbind]. rewrite S1.
-      replace (192 <=? c) with false by lia. replace (negb (c =? 92)) with true by lia. reflexivity. }
+    subst cls.
+    assert (Hstop0 : ident_cont1 id_cont R' = Ok 0) by (apply ident_stop_ok; assumption).
     pose proof (ident_exchange id_start id_cont R' HR' _ _ Hnt H0R E0 HT Hstop0) as E0'.
     assert (pn = false) by (destruct pn; [exfalso; apply Hpn; reflexivity|reflexivity]). subst pn.
     open_ext E R' Hsuf. rewrite E0'. cbn [rbind]. use_conds.
@@ -513,11 +536,8 @@ Proof.
   - (* identifiers *)
     assert (a0 = len T) by lia. subst a0.
     apply lexeme_slice in Em. rewrite slice_mv in Em by reflexivity. rewrite suffix_init, firstz_len_app in Em. subst l ty.
-    injection Hcls as <-. destruct Hstop as (S1 & S2 & S3).
-    destruct (hd_cons_nonempty R' HR') as (c & R'' & HRc & Hc). rewrite Hc in *.
-    assert (Hstop0 : ident_cont1 id_cont R' = Ok 0).
-    { rewrite HRc. unfold ident_cont1, uesc. rewrite pkl_cons_0. cbn [rbind]. rewrite S1.
-      replace (192 <=? c) with false by lia. replace (negb (c =? 92)) with true by lia. reflexivity. }
+    injection Hcls as <-.
+    assert (Hstop0 : ident_cont1 id_cont R' = Ok 0) by (apply ident_stop_ok; assumption).
     pose proof (ident_exchange id_start id_cont R' HR' _ _ Hnt H0R E0 HT Hstop0) as E0'.
     assert (pn = false) by (destruct pn; [exfalso; apply Hpn; reflexivity|reflexivity]). subst pn.
     open_ext E R' Hsuf. rewrite E0'. cbn [rbind]. use_conds.
@@ -526,12 +546,8 @@ Proof.
       unfold emit, shift in He. destruct (lexeme (mv z (len T))) as [w|]; [|discriminate]. congruence. }
     rewrite Hlex, Em0. fin_ext z T R' Hw Hst Hsuf HR' Hstep.
   - (* whitespace that starts with a non-ASCII space *)
-    subst ty. injection Hcls as <-. destruct Hstop as (S1 & S2 & S3 & S4 & S5).
-    destruct (hd_cons_nonempty R' HR') as (c & R'' & HRc & Hc). rewrite Hc in *.
-    assert (Hstop0 : ws1 is_zs R' = Ok 0).
-    { rewrite HRc. unfold ws1. rewrite pkl_cons_0. cbn [rbind].
-      replace ((c =? 32) || (c =? 9) || (c =? 11) || (c =? 12)) with false by lia.
-      replace (192 <=? c) with false by lia. reflexivity. }
+    subst ty. injection Hcls as <-.
+    assert (Hstop0 : ws1 is_zs R' = Ok 0) by (apply ws_stop_ok; assumption).
     assert (HTne : T <> []) by (apply len_pos_nonempty; lia).
     pose proof (rep_nonneg _ (ws1_nonneg is_zs) _ _ _ E2) as Ha2.
     assert (Hr : exists r, peek_rune (T ++ [0]) = Ok (r, a1)).
@@ -548,12 +564,8 @@ Proof.
     open_ext E R' Hsuf. rewrite E0'. cbn [rbind]. change (0 <? 0) with false. cbv iota. use_conds.
     rewrite E1'. cbn [rbind]. use_conds. rewrite E2'. cbn [rbind]. fin_ext z T R' Hw Hst Hsuf HR' Hstep.
   - (* U+2028 / U+2029 *)
-    subst ty. injection Hcls as <-. destruct Hstop as (S1 & S2 & S3).
-    destruct (hd_cons_nonempty R' HR') as (c & R'' & HRc & Hc). rewrite Hc in *.
-    assert (Hstop0 : lt1 R' = Ok 0).
-    { rewrite HRc. unfold lt1. rewrite pkl_cons_0. cbn [rbind].
-      replace (c =? 10) with false by lia. replace (c =? 13) with false by lia. replace (c =? 226) with false by lia.
-      reflexivity. }
+    subst ty. injection Hcls as <-.
+    destruct (lt_stop_ok R' HwR' Hstop) as (Hstop0 & Hh10).
     assert (HTne : T <> []) by (apply len_pos_nonempty; lia).
     pose proof (rep_nonneg _ lt1_nonneg' _ _ _ E3) as Ha3.
     assert (a1 = 0) by (pose proof (ws1_nonneg is_zs _ _ E1); lia). subst a1.
@@ -568,9 +580,9 @@ Proof.
     destruct Hr as (r & n & Hr).
     pose proof (ident_decline2 T [0] R' 226 a0 r n H0R HR' Hnt HTne E Eb18 E0 Eb17 Hr) as E0'.
     pose proof (ws1_decline2 T [0] R' 226 r n H0R HR' Hnt HTne E Eb18 E1 Hr) as E1'.
-    pose proof (lt1_local2 R' HR' ltac:(rewrite Hc; lia) T [0] 3 Hnt H0R E2 ltac:(lia)) as E2'.
+    pose proof (lt1_local2 R' HR' Hh10 T [0] 3 Hnt H0R E2 ltac:(lia)) as E2'.
     assert (Hm : a3 = len T - 3) by lia. rewrite Hm in E3.
-    pose proof (repl_exchange_all lt1 R' T 3 (lt1_local2 R' HR' ltac:(rewrite Hc; lia)) Hstop0 lt1_nonneg' HR' Hnt ltac:(lia) E3) as E3'.
+    pose proof (repl_exchange_all lt1 R' T 3 (lt1_local2 R' HR' Hh10) Hstop0 lt1_nonneg' HR' Hnt ltac:(lia) E3) as E3'.
     open_ext E R' Hsuf. rewrite E0'. cbn [rbind]. change (0 <? 0) with false. cbv iota. use_conds.
     rewrite E1'. cbn [rbind]. change (0 <? 0) with false. cbv iota.
     rewrite E2'. cbn [rbind]. change (0 <? 3) with true. cbv iota. rewrite E3'. cbn [rbind]. fin_ext z T R' Hw Hst Hsuf HR' Hstep.
@@ -660,14 +672,15 @@ Definition slash_tok (body : list Z) : tok :=
    brace level and open templates are unchanged *)
 Lemma next_regex s pn pl lev tl body flags R' :
   re_body false body -> body <> [] -> hd 0 body <> 42 ->
-  Forall (fun c => tab_cont c = true) flags -> tab_cont (hd 0 R') = false -> hd 0 R' < 192 -> wfl R' ->
+  re_flags id_cont flags -> flag_stop id_cont R' -> wfl R' ->
   seq_inv pn pl lev tl s -> suffix (jcur s) = re_lit body flags ++ R' ->
   exists s1 s2, next id_start id_cont is_zs s = Ok (slash_tok body, s1) /\
     regexp id_cont s1 = Ok ((RegExpToken, Some (re_lit body flags)), s2) /\
     seq_inv false false lev tl s2 /\ suffix (jcur s2) = R'.
 Proof.
-  intros Hb Hne H42 Hf Hr0 Hr1 HwR' (Hw & Hst & Hlev & Htl & Hpnl & Hplt) Hsuf.
-  destruct (hd_cons_nonempty R' (wfl_nonnil _ HwR')) as (r0 & rest0 & -> & Hhd). cbn [hd] in Hr0, Hr1.
+  intros Hb Hne H42 Hf Hfs HwR' (Hw & Hst & Hlev & Htl & Hpnl & Hplt) Hsuf.
+  destruct (hd_cons_nonempty R' (wfl_nonnil _ HwR')) as (r0 & rest0 & -> & Hhd).
+  pose proof (flags_run_gen id_cont flags r0 rest0 Hf HwR' Hfs) as Hrun.
   set (pre := firstz (lpos (jcur s)) (lbuf (jcur s))).
   assert (Hbuf : lbuf (jcur s) = pre ++ re_lit body flags ++ r0 :: rest0).
   { rewrite <- Hsuf. unfold pre, suffix. symmetry. apply firstz_skipz. }
@@ -684,7 +697,7 @@ Proof.
     as (t1 & s1 & k & Hn & Hb1 & Hp1 & Hk).
   assert (Hk' : k = 1 \/ (k = 2 /\ exists b', b0 :: body' = 61 :: b')).
   { destruct Hk as [(-> & _ & _)|(-> & _ & ->)]; [left; reflexivity|right; split; [reflexivity|eauto]]. }
-  destruct (regexp_at id_cont pre (b0 :: body') flags r0 rest0 s1 k Hb Hf Hr0 Hr1 HwR' ltac:(congruence) Hp1 Hk')
+  destruct (regexp_at_gen id_cont pre (b0 :: body') flags r0 rest0 s1 k Hb Hrun HwR' ltac:(congruence) Hp1 Hk')
     as (s2 & Hre & Hp2 & Hs2 & Hb2).
   assert (Ht1 : t1 = slash_tok (b0 :: body')).
   { unfold slash_tok. cbn [hd]. destruct Hk as [(_ & -> & Hb0)|(_ & -> & Hb0)].
@@ -747,14 +760,73 @@ Inductive seq_ok : bool -> bool -> Z -> list Z -> list item -> Prop :=
 Lemma after_wfl rest : wfl (after rest).
 Proof. exists (texts rest). reflexivity. Qed.
 
-Lemma seq_run pn pl lev tl its : seq_ok pn pl lev tl its ->
+(* seq_exact: as seq_ok, with the exact follower conditions stops / flag_stop and all flags re_flags allows *)
+Inductive seq_exact : bool -> bool -> Z -> list Z -> list item -> Prop :=
+| sx_nil pn pl lev tl : seq_exact pn pl lev tl []
+| sx_cons pn pl lev tl lev' tl' ty T rest cls :
+    relexes id_start id_cont is_zs ty T -> class_of ty = Some cls -> text_ok cls pl T -> no_trunc T = true ->
+    (pn = true -> cls <> KIdent) -> step_state ty lev tl = Some (lev', tl') ->
+    stops cls pl T (after rest) -> seq_exact (is_num cls) (plt_after ty pl) lev' tl' rest ->
+    seq_exact pn pl lev tl (ITok ty T :: rest)
+| sx_cont pn pl lev tl lev' tl' ty ty0 body rest :
+    (ty = TemplateMiddleToken /\ ty0 = TemplateStartToken) \/ (ty = TemplateEndToken /\ ty0 = TemplateToken) ->
+    relexes id_start id_cont is_zs ty0 (96 :: body) -> step_state ty lev tl = Some (lev', tl') ->
+    seq_exact false false lev' tl' rest -> seq_exact pn pl lev tl (ITok ty (125 :: body) :: rest)
+| sx_regex pn pl lev tl body flags rest :
+    re_body false body -> body <> [] -> hd 0 body <> 42 -> re_flags id_cont flags ->
+    flag_stop id_cont (after rest) ->
+    seq_exact false false lev tl rest -> seq_exact pn pl lev tl (IRegex body flags :: rest).
+
+(* the sufficient conditions imply the exact ones *)
+Lemma stop_for_stops cls pl ty T R' : relexes id_start id_cont is_zs ty T -> class_of ty = Some cls -> wfl R' ->
+  stop_for cls T R' -> stops cls pl T R'.
+Proof.
+  intros (s2 & Hn & _) Hcls Hw Hs.
+  assert (HT : T <> []) by (intros ->; vm_compute in Hn; discriminate).
+  destruct (hd_cons_nonempty R' (wfl_nonnil _ Hw)) as (c & R'' & -> & Hc).
+  unfold stop_for in Hs. cbv zeta in Hs. cbn [hd] in Hs. destruct cls; cbn [stops].
+  - (* punctuators *)
+    assert (Hgen : op_stop c -> (T = [47] -> c <> 47) -> punct_stop pl T (c :: R'')).
+    { intros Ho H47. unfold punct_stop. cbv zeta. cbn [hd]. pose proof Ho as Ho'. unfold op_stop in Ho'.
+      split; [left; apply op_stop_longer; assumption|]. split; [intros _; lia|]. split; [intros E; split; [auto|lia]|].
+      split; [|intros _ _; lia].
+      intros _ E. rewrite firstz_cons in E by lia. assert (c = 33) by congruence. lia. }
+    destruct T as [|t [|t' T']]; [congruence| |apply Hgen; [exact Hs|intros; discriminate]].
+    destruct (punct1 t) eqn:Ep; [|destruct Hs as (Ho & H47); apply Hgen; [exact Ho|intros E; apply H47; congruence]].
+    unfold punct_stop. cbv zeta. cbn [hd]. unfold punct1 in Ep.
+    split; [left; apply punct1_longer; exact Ep|].
+    split; [intros [E|E]; exfalso; assert (t = 46) by congruence; lia|].
+    split; [intros E; exfalso; assert (t = 47) by congruence; lia|].
+    split; [intros E; exfalso; assert (t = 60) by congruence; lia|intros E; discriminate E].
+  - destruct Hs as (S1 & S2 & S3). unfold ident_stop, rune_stop. cbn [hd]. repeat split; try assumption. intros; lia.
+  - destruct Hs as (S1 & S2 & S3 & S4 & S5). unfold ws_stop, rune_stop. cbv zeta. cbn [hd]. repeat split; try assumption. intros; lia.
+  - destruct Hs as (S1 & S2 & S3). unfold lt_stop, lt_at. lia.
+  - exact I.
+  - exact Hs.
+  - exact I.
+  - destruct Hs as (S1 & S2). cbn [hd]. split; [exact S1|intros; contradiction].
+Qed.
+
+Lemma seq_ok_exact pn pl lev tl its : seq_ok pn pl lev tl its -> seq_exact pn pl lev tl its.
+Proof.
+  induction 1 as [pn pl lev tl|pn pl lev tl lev' tl' ty T rest cls Hre Hcls Htxt Hnt Hpn Hstep Hstop Hrest IH
+                 |pn pl lev tl lev' tl' ty ty0 body rest Hk Hre Hstep Hrest IH
+                 |pn pl lev tl body flags rest Hb Hne H42 Hf Hr0 Hr1 Hrest IH].
+  - apply sx_nil.
+  - eapply sx_cons; try eassumption. eapply stop_for_stops; try eassumption. apply after_wfl.
+  - eapply sx_cont; eassumption.
+  - apply sx_regex; try assumption; [apply re_flags_ascii; assumption|].
+    unfold flag_stop, rune_stop. split; [exact Hr0|intros; lia].
+Qed.
+
+Lemma seq_run pn pl lev tl its : seq_exact pn pl lev tl its ->
   forall s, seq_inv pn pl lev tl s -> suffix (jcur s) = after its ->
   exists s' pn' pl' lev' tl', jrun id_start id_cont is_zs (ops_of its) s = Ok (toks_of its, s') /\
     seq_inv pn' pl' lev' tl' s' /\ suffix (jcur s') = [0].
 Proof.
   induction 1 as [pn pl lev tl|pn pl lev tl lev' tl' ty T rest cls Hre Hcls Htxt Hnt Hpn Hstep Hstop Hrest IH
                  |pn pl lev tl lev' tl' ty ty0 body rest Hk Hre Hstep Hrest IH
-                 |pn pl lev tl body flags rest Hb Hne H42 Hf Hr0 Hr1 Hrest IH]; intros s Hinv Hsuf.
+                 |pn pl lev tl body flags rest Hb Hne H42 Hf Hfs Hrest IH]; intros s Hinv Hsuf.
   - exists s, pn, pl, lev, tl. cbn. auto.
   - assert (Hsuf' : suffix (jcur s) = T ++ after rest).
     { rewrite Hsuf. unfold after, texts. cbn [map concat item_text]. rewrite <- app_assoc. reflexivity. }
@@ -774,7 +846,7 @@ Proof.
     fold (ops_of rest). fold (toks_of rest). rewrite Hn2. reflexivity.
   - assert (Hsuf' : suffix (jcur s) = re_lit body flags ++ after rest).
     { rewrite Hsuf. unfold after, texts. cbn [map concat item_text]. rewrite <- app_assoc. reflexivity. }
-    destruct (next_regex s pn pl lev tl body flags (after rest) Hb Hne H42 Hf Hr0 Hr1 (after_wfl rest) Hinv Hsuf')
+    destruct (next_regex s pn pl lev tl body flags (after rest) Hb Hne H42 Hf Hfs (after_wfl rest) Hinv Hsuf')
       as (s1 & s2 & Hn & Hre & Hinv2 & Hsuf2).
     destruct (IH s2 Hinv2 Hsuf2) as (s3 & pn3 & pl3 & lev3 & tl3 & Hn3 & Hinv3 & Hsuf3).
     exists s3, pn3, pl3, lev3, tl3. split; [|auto].
@@ -785,7 +857,7 @@ Qed.
 
 (* C06: the lexer, driven with Next (and RegExp after the '/' of a regular expression literal), returns
    exactly the token sequence; the input starts a line (prevLineTerminator is initially true) *)
-Lemma jslex_token_sequences_partial_proof its : seq_ok false true 0 [] its ->
+Lemma jslex_token_sequences_proof its : seq_exact false true 0 [] its ->
   exists s', jrun id_start id_cont is_zs (ops_of its) (js_init (texts its)) = Ok (toks_of its, s') /\
     at_end (jcur s') = true /\ lstart (jcur s') = lpos (jcur s').
 Proof.
@@ -796,6 +868,12 @@ Proof.
   - exists s'. split; [assumption|]. split; [|assumption].
     destruct (suffix_wfl _ Hw) as (_ & Hlen). rewrite Hsuf in Hlen. unfold at_end. change (len [0]) with 1 in Hlen. lia.
 Qed.
+
+(* the same under the sufficient follower conditions of seq_ok *)
+Lemma jslex_token_sequences_partial_proof its : seq_ok false true 0 [] its ->
+  exists s', jrun id_start id_cont is_zs (ops_of its) (js_init (texts its)) = Ok (toks_of its, s') /\
+    at_end (jcur s') = true /\ lstart (jcur s') = lpos (jcur s').
+Proof. intros H. apply jslex_token_sequences_proof. apply seq_ok_exact. exact H. Qed.
 
 End SeqNext.
 
@@ -843,4 +921,45 @@ Proof.
   ex_regex. { ex_plain. ex_plain. apply rb_nil. }
   do 2 ex_tok. do 3 ex_tok.
   ex_cont TemplateStartToken. do 2 ex_tok. ex_cont TemplateToken. ex_cont TemplateToken. do 4 ex_tok. apply sq_nil.
+Qed.
+(* non-vacuity of the exact conditions, with U+00E9 as the only non-ASCII identifier character:
+     x=-1;!-a;!!a;0x1F.a;a+ é;a NBSP /a/gé NBSP
+   '-' directly after '=', a digit directly after '-', '-' and '!' directly after '!', '.' directly after a
+   hexadecimal literal, a non-ASCII identifier directly after a space, a non-ASCII space directly after an
+   identifier and after regular expression flags, a non-ASCII flag character *)
+Definition ex_idc (r : Z) : bool := r =? 233.
+Example ex_seq_exact : seq_exact ex_idc ex_idc nocls false true 0 []
+  [ITok IdentifierToken [120]; ITok 1537 [61]; ITok 1556 [45]; ITok IntegerToken [49]; ITok SemicolonToken [59];
+   ITok 1540 [33]; ITok 1556 [45]; ITok IdentifierToken [97]; ITok SemicolonToken [59];
+   ITok 1540 [33]; ITok 1540 [33]; ITok IdentifierToken [97]; ITok SemicolonToken [59];
+   ITok HexadecimalToken [48; 120; 49; 70]; ITok 519 [46]; ITok IdentifierToken [97]; ITok SemicolonToken [59];
+   ITok IdentifierToken [97]; ITok 1553 [43]; ITok WhitespaceToken [32]; ITok IdentifierToken [195; 169]; ITok SemicolonToken [59];
+   ITok IdentifierToken [97]; ITok WhitespaceToken [194; 160]; IRegex [97] [103; 195; 169]; ITok WhitespaceToken [194; 160]].
+Proof.
+  Ltac ex_rune := first [ intros Hx; exfalso; cbn in Hx; lia
+                        | intros _ r n Hr; vm_compute in Hr; injection Hr as <- <-; reflexivity ].
+  Ltac ex_stops :=
+    cbn [stops]; unfold punct_stop, ident_stop, ws_stop, lt_stop, flag_stop, rune_stop; cbv zeta;
+    match goal with |- context [after ?r] => let R := fresh "R" in set (R := after r); vm_compute in R; subst R end;
+    cbn [hd];
+    repeat match goal with
+    | |- _ /\ _ => split
+    | |- longer_punct _ _ = false \/ _ => left; vm_compute; reflexivity
+    end;
+    try reflexivity; try lia; try discriminate; try exact I;
+    try (intros; discriminate);
+    try (intros [E|E]; discriminate E);
+    try (intros _; lia);
+    try ex_rune.
+  Ltac ex_tokx := eapply sx_cons;
+    [unfold relexes; vm_compute; eexists; split; [reflexivity|split; reflexivity]
+    | reflexivity | exact I | reflexivity | try (intros; discriminate) | reflexivity | ex_stops | cbn [is_num plt_after]; vm_compute plt_after ].
+  do 24 ex_tokx.
+  eapply sx_regex.
+  - apply rb_plain; [lia|lia|lia|lia|lia|intros _; lia|reflexivity|apply rb_nil].
+  - discriminate.
+  - cbn [hd]; lia.
+  - apply rf_ascii; [reflexivity|]. apply (rf_rune ex_idc [195; 169] 233 []); [cbn [hd]; lia|reflexivity|vm_compute; reflexivity|reflexivity|apply rf_nil].
+  - ex_stops.
+  - ex_tokx. apply sx_nil.
 Qed.
